@@ -525,24 +525,25 @@ func (bkt *Bucket) incr(ki *KeyInfo, value int) int {
 			if len(tofree.Body) > 22 {
 				logger.Warnf("incr with large value %s...", string(tofree.Body[:22]))
 				errFlag = true
-				return 0
+			} else {
+				s := string(tofree.Body)
+				v, err := strconv.Atoi(s)
+				if err != nil {
+					errFlag = true
+					logger.Warnf("incr with value %s", s)
+				}
+				ver += tofree.Ver
+				value += v
 			}
-			s := string(tofree.Body)
-			v, err := strconv.Atoi(s)
-			if err != nil {
-				errFlag = true
-				logger.Warnf("incr with value %s", s)
-			}
-			ver += tofree.Ver
-			value += v
 		}
 	}
 
+	// the record read above is not needed any more, whatever the outcome
+	if tofree != nil {
+		cmem.DBRL.GetData.SubSizeAndCount(tofree.CArray.Cap)
+		tofree.CArray.Free()
+	}
 	if errFlag {
-		if tofree != nil {
-			cmem.DBRL.GetData.SubSizeAndCount(tofree.CArray.Cap)
-			tofree.CArray.Free()
-		}
 		cmem.DBRL.SetData.SubCount(1)
 		return 0
 	}
